@@ -1,6 +1,7 @@
 import CheetahModel.Proofs.DualProofs
 import CheetahModel.Proofs.DualSound
 import CheetahModel.Proofs.ReverseProofs
+import CheetahModel.Proofs.CsReverse
 /-!
 # C05 — autograd gradients equal the true derivatives and are finite  (partial)
 
@@ -92,5 +93,14 @@ theorem reverse_gradient_at_guard (L : ℝ) :
         (.div (.sin (.mul (.sqrt (.var 0)) (.var 1))) (.sqrt (.var 0))) : Ex ℝ) 0 = 0 := by
   rw [Ex.grad_eq_fwd]
   simp [Ex.sel_d, Scalar.sel, Ex.lit0]
+
+/-- **Cheetah's own formula, end to end**: the focusing functions of `base_rmatrix` (`Maps.cs`: the trigonometric pair for
+`k² > 0`, the hyperbolic pair otherwise) are the forward pass of the programs `Ex.csC`, `Ex.csS`, and the gradients a
+reverse-mode backward pass returns for them w.r.t. the strength (`i = 0`) and the length (`i = 1`) are the partial derivatives
+of the model functions — for either sign of `k²`; `k² = 0` is excluded: that is the recorded finding -/
+theorem focusing_reverse_gradient (env : Nat → ℝ) (h : env 0 ≠ 0) (i : Nat) :
+    HasDerivAt (fun t => (cs (Ex.upd env i t 0) (Ex.upd env i t 1)).c) (Ex.grad env Ex.csC i) (env i) ∧
+    HasDerivAt (fun t => (cs (Ex.upd env i t 0) (Ex.upd env i t 1)).s) (Ex.grad env Ex.csS i) (env i) :=
+  Ex.cs_reverse_gradient env h i
 
 end C05
